@@ -29,7 +29,8 @@ ASSUMPTIONS = [
     "reader/writer are recording stubs (readline waits for the harness to feed a line; drain returns at once)",
 ]
 
-KINDS = ("get", "help", "perr", "aerr", "lock", "flush", "eof", "cbrel", "stop", "unlock")
+KINDS = ("get", "help", "perr", "aerr", "lock", "flush", "eof", "cbrel", "stop", "unlock", "bighelp")
+BIG = 1500      # longer than any buffer-size heuristic a session might apply
 
 
 class _Server:
@@ -77,16 +78,20 @@ class _StubParser:
 
     def __init__(self, session, ch):
         self.s, self.ch, self.plan = session, ch, []
+        self.stream = session._response_buffer      # ControlParser(stream=...) keeps the object it was given
 
     def parse_args(self, tokens):
         kind, n = self.plan.pop(0)
         if kind == "get":
             return Namespace(command=TaskPool.num_running)
         if kind == "help":
-            self.s._response_buffer.write(self.ch * n)
+            self.stream.write(self.ch * n)
+            raise HelpRequested
+        if kind == "bighelp":
+            self.stream.write(self.ch * BIG)
             raise HelpRequested
         if kind == "perr":
-            self.s._response_buffer.write(self.ch.upper() * n)
+            self.stream.write(self.ch.upper() * n)
             raise ParserError
         if kind == "aerr":
             raise ArgumentError(None, self.ch * n + "!")
@@ -178,6 +183,8 @@ def tpl_listen(s1, k1, n1, s2, k2, n2, s3, k3, n3, s4, k4, n4, _twin=False):
                     q["exp"].append(str(pool.num_running))
                 elif kind == "help":
                     q["exp"].append(ch * n)
+                elif kind == "bighelp":
+                    q["exp"].append(ch * BIG)
                 elif kind == "perr":
                     q["exp"].append(ch.upper() * n)
                 elif kind == "aerr":
@@ -189,7 +196,7 @@ def tpl_listen(s1, k1, n1, s2, k2, n2, s3, k3, n3, s4, k4, n4, _twin=False):
                         q["pending_flush"] = len(q["exp"])
                     q["exp"].append("ok")
                 w.settle()
-                if kind in ("help", "perr", "aerr") and q["pending_flush"] is None or (kind in ("help", "perr", "aerr") and cb_released[0]):
+                if kind in ("help", "perr", "aerr", "bighelp") and (q["pending_flush"] is None or cb_released[0]):
                     if _snap(pool, w) != before:
                         w.fail(1804)
             w.settle()
@@ -230,10 +237,11 @@ class _EchoParser:
     def __init__(self, session):
         self.s = session
         self.calls = []
+        self.stream = session._response_buffer
 
     def parse_args(self, tokens):
         self.calls.append(list(tokens))
-        self.s._response_buffer.write("usage")
+        self.stream.write("usage")
         raise ParserError
 
 
@@ -292,7 +300,7 @@ def families(tier):
     if not thorough:
         pre += ["k4 == %d" % nk, "n4 == 0", "s4 == 0", "s1 == 0", "s3 == 0", "n1 == 0 or n1 == 2", "n2 == 0 or n2 == 2", "n3 == 0 or n3 == 2",
                 "k3 == 0 or k3 == 1 or 5 <= k3 <= 8 or k3 == %d" % nk]
-        parts = parts_product(k1=(0, 1, 4, 5), k2=range(nk))
+        parts = parts_product(k1=(0, 1, 4, 5, 10), k2=range(nk))
     else:
         pre += ["k4 == %d" % nk, "n4 == 0", "s4 == 0", "s1 == 0", "s3 == 0"]
         parts = parts_product(k1=range(nk), k2=range(nk))
